@@ -42,20 +42,34 @@ func exec(line string) string {
 	if len(key) == 0 {
 		key = nil
 	}
+	var m mutLog
 	var cur, oth xof
-	if alg == "b" {
-		x, err := blake2b.NewXOF(uint32(o.U64("len")), key)
-		if err != nil {
-			return "err"
+	var nerr error
+	// the key lives in a guarded buffer that is overwritten right after NewXOF returns (Reset must restore the
+	// original key from the XOF's own copy)
+	m.input("key", key, func(key []byte) {
+		if alg == "b" {
+			x, err := blake2b.NewXOF(uint32(o.U64("len")), key)
+			if err != nil {
+				nerr = err
+				return
+			}
+			cur = bx{x}
+		} else {
+			x, err := blake2s.NewXOF(uint16(o.U64("len")), key)
+			if err != nil {
+				nerr = err
+				return
+			}
+			cur = sx{x}
 		}
-		cur = bx{x}
-	} else {
-		x, err := blake2s.NewXOF(uint16(o.U64("len")), key)
-		if err != nil {
-			return "err"
-		}
-		cur = sx{x}
+	})
+	if nerr != nil {
+		return "err mut=" + m.String()
 	}
+	// one read buffer reused for all reads of the op: garbage-filled before, overwritten after every Read
+	rdArena := hx.NewArena()
+	rdBuf := rdArena.Out("rd", 16384)
 	data := o.Hex("data")
 	var outs []string
 	for _, op := range o.List("ops") {
@@ -82,36 +96,58 @@ func exec(line string) string {
 		case strings.HasPrefix(op, "rd"):
 			var n int
 			fmt.Sscanf(op[2:], "%d", &n)
-			buf := make([]byte, n)
-			m, err := cur.Read(buf)
+			var buf []byte
+			if n <= len(rdBuf) {
+				buf = rdBuf[:n:n]
+			} else {
+				buf = make([]byte, n)
+			}
+			for i := range buf {
+				buf[i] = byte(0x77 + i)
+			}
+			k, err := cur.Read(buf)
 			switch {
-			case err == io.EOF && m == 0:
+			case err == io.EOF && k == 0:
 				outs = append(outs, "eof")
 			case err == nil:
-				outs = append(outs, hx.Hex(buf[:m]))
+				outs = append(outs, hx.Hex(buf[:k]))
+				for i := k; i < n; i++ { // a short read must not touch the rest of p
+					if buf[i] != byte(0x77+i) {
+						m.add("rd.tail")
+						break
+					}
+				}
 			default:
 				outs = append(outs, "read-error")
 			}
+			if r := rdArena.Check(); r != "-" {
+				m.add(r)
+			}
+			rdArena.Scribble()
 		case op[0] == 'w':
 			var n int
 			fmt.Sscanf(op[1:], "%d", &n)
 			if n > len(data) {
 				return "bad-op"
 			}
-			chunk := data[:n]
+			chunk := data[:n:n]
 			data = data[n:]
-			if _, p := hx.PanicText(func() { cur.Write(chunk) }); p {
+			panicked := false
+			m.input("p", chunk, func(p []byte) {
+				_, panicked = hx.PanicText(func() { cur.Write(p) })
+			})
+			if panicked {
 				outs = append(outs, "panic")
-				return strings.Join(outs, ",")
+				return strings.Join(outs, ",") + " mut=" + m.String()
 			}
 		default:
 			return "bad-op"
 		}
 	}
 	if len(outs) == 0 {
-		return "none"
+		return "none mut=" + m.String()
 	}
-	return strings.Join(outs, ",")
+	return strings.Join(outs, ",") + " mut=" + m.String()
 }
 
 func readSize(r *hx.Rand, size int) int {
